@@ -83,7 +83,7 @@ Definition A_ch (s : cshared) (p : cpc) : Prop :=
   match p with
   | PCb2 c => kCl <= cstate s c /\ (c < length (cstates s))%nat
   | PCb4 c chState | PCb4b c chState _ => (chState = hSC \/ chState = hIC) /\ chState <= chst s
-  | PCb5 c u => (u = hIC \/ u = hCl) /\ hSC <= chst s /\
+  | PCb5 c _ u => (u = hIC \/ u = hCl) /\ hSC <= chst s /\
                 (forall d, In d (conns s) -> (if u =? hCl then kCl else kIC) <= cstate s d)
   | PCb1 c | PAd1 c => (c < length (cstates s))%nat
   | _ => True
@@ -517,7 +517,7 @@ Definition chopeful (p : cpc) : bool :=
   match p with
   | PCb1 _ | PCb2 _ | PCb3 _ | PCb4 _ _ => true
   | PCb4b _ _ lo => kCl <=? lo
-  | PCb5 _ u => u =? hCl
+  | PCb5 _ _ u => u =? hCl
   | _ => false
   end.
 
